@@ -24,6 +24,18 @@ fn main() {
     if args.len() < 3 {
         usage();
     }
+    if args[1] == "asanprobe" {
+        // self-test of the sanitizer pass: keep a &str from Symbol::as_str across an interning that makes the
+        // interner's buffer grow, then read it (a use after free that only an instrumented build reports)
+        use mimium_lang::interner::ToSymbol;
+        let sym = "probe_symbol_for_the_sanitizer".to_symbol();
+        let s: &str = sym.as_str();
+        let big = "z".repeat(8 << 20);
+        let _ = big.to_symbol();
+        let n: usize = s.bytes().map(|b| b as usize).sum();
+        println!("read {n} through a slice taken before the buffer grew");
+        return;
+    }
     if args[1] == "emitrust" {
         let src = if std::path::Path::new(&args[2]).exists() { std::fs::read_to_string(&args[2]).unwrap() } else { args[2].clone() };
         let mut ctx = mimium_lang::ExecContext::new([].into_iter(), None, mimium_lang::Config::default());
